@@ -208,7 +208,7 @@ def run(chk):
         t = op.split()
         if t[0] == "dnsenc" and "pkt=" in line and line.split("pkt=")[1] not in ("-", ""):
             # legal inputs with room must give a strictly parsable message that echoes id / name / type
-            roomy = int(t[4] if t[1] == "a" else t[5]) >= 4096
+            roomy = int(t[4] if t[1] == "a" else t[5]) in (4096, 65536)      # the buffer sizes the callers use
             if roomy and int(t[3]) in TYPES:
                 m = vlib.unhx(line.split("pkt=")[1])
                 try:
